@@ -211,6 +211,30 @@ pub fn j_numeric(pf: usize, x: f64, ts: TimeScale, out: &mut Local) {
     }
 }
 
+/// time scale names: Display and the RINEX form both parse back to the scale
+pub fn j_scale_text(ts: TimeScale, out: &mut Local) {
+    let r = guard(|| (format!("{ts}"), format!("{ts:x}"), TimeScale::from_str(&format!("{ts}")), TimeScale::from_str(&format!("{ts:x}")), TimeScale::from_str(&format!("  {ts} "))));
+    let args = vec![scale_name(ts).to_string()];
+    match r {
+        Ok((a, b, ra, rb, rc)) => {
+            let want_b = match ts {
+                TimeScale::GPST => "GPS",
+                TimeScale::GST => "GAL",
+                TimeScale::BDT => "BDS",
+                TimeScale::QZSST => "QZSS",
+                _ => text::scale_str(ts),
+            };
+            if a == text::scale_str(ts) && b == want_b && ra == Ok(ts) && rb == Ok(ts) && rc == Ok(ts) {
+                out.ok(5, true, ts as u64);
+                out.sample("c10.scale_text", args, format!("{a} / {b}"), true);
+            } else {
+                out.viol("c10.scale_text", format!("wrong,{}", scale_name(ts)), args, format!("{} / {want_b}, both parse back", text::scale_str(ts)), format!("{a} / {b} -> {ra:?} {rb:?} {rc:?}"));
+            }
+        }
+        Err(p) => out.viol("c10.scale_text", format!("panic:{}", p.class()), args, "no panic".into(), p.msg),
+    }
+}
+
 pub fn grammar_instants() -> Vec<(i64, i128)> {
     let mut v = vec![];
     let dates = [(1, 1, 1), (1582, 10, 15), (1899, 12, 31), (1900, 1, 1), (1971, 12, 31), (1972, 1, 1), (1980, 1, 6), (1999, 8, 22), (2000, 1, 1), (2000, 2, 29), (2006, 1, 1), (2016, 12, 31), (2017, 1, 1), (2024, 2, 29), (2100, 3, 1), (9999, 12, 31)];
@@ -244,6 +268,7 @@ pub fn run(rep: &mut Report) {
             j_round_trip(d, sod, ns, ts, &leap, out)
         });
     }
+    sweep(rep, "c10.scale_text", 9, |i, out| j_scale_text(SCALES[i as usize], out));
     // grammar product
     let gi = grammar_instants();
     let zones: Vec<usize> = if q {
@@ -303,6 +328,7 @@ pub fn replay(check: &str, a: &[String], out: &mut Local) -> bool {
     match check {
         "c10.round_trip" | "c10.display" | "c10.gregorian_str" | "c10.iso8601" | "c10.serde" | "c10.rfc3339" | "c10.isoformat" => j_round_trip(p64(&a[0]), p128(&a[1]), p128(&a[2]), scale_from(&a[3]), &leap, out),
         "c10.grammar" => j_grammar(p64(&a[0]), p128(&a[1]), a[2].parse().unwrap(), a[3].parse().unwrap(), a[4].parse().unwrap(), a[5].parse().unwrap(), a[6].parse().unwrap(), out),
+        "c10.scale_text" => j_scale_text(scale_from(&a[0]), out),
         "c10.numeric" => j_numeric(a[0].parse().unwrap(), pf64(&a[1]), scale_from(&a[2]), out),
         _ => return false,
     }
